@@ -4,7 +4,21 @@
 // theorems in /verif/gen/*.v are re-checked against what the code says now. Anything outside the supported
 // subset is an error (the proof obligation then fails to build), never a silent approximation.
 //
-// usage: go2coq -repo DIR -out FILE relpath:Func1,Func2 [relpath:Func3 ...]
+// Methods (spec "Type.method", Gallina name Type_method): the receiver's fields of translated types become explicit
+// state parameters, and EVERY method - pointer receiver or value receiver - returns that state followed by its
+// results, so all methods of a type have the same shape res (state * results). A value-receiver method works on a
+// copy in Go: it may not assign to a receiver field or to an element of a receiver slice, nor call a
+// pointer-receiver method (hard errors), hence the state it returns is the state it was given. Calls between
+// translated methods of the same receiver: in an expression only a value-receiver callee with one result
+// (`bf.isSet(a, b)`: the returned state is dropped); as a statement (`bf.set(a, b)`, `bf.extend(n)`) the state
+// returned by a pointer-receiver callee replaces the caller's state variables. The value is that of a single owner
+// of the struct (no aliasing of the slices between copies).
+// []byte / []uint8 are list Z: len, s[i], s[i] = x, s[i] op= x (index, then right-hand side, then the read of
+// s[i], which panics out of range, then the write), and exactly the idiom append(s, make([]byte, n)...).
+// <<, &, |: a shift panics on a negative count and wraps to the type of its left operand; an untyped constant left
+// operand takes the type the context gives the shift expression (byte in `b & (1 << k)`), int if there is none.
+//
+// usage: go2coq -repo DIR -out FILE relpath:Func1,Func2,Type.method [relpath:Func3 ...]
 package main
 
 import (
@@ -42,6 +56,7 @@ type fn struct {
 	mtypes   []ity
 	recv     string   // receiver name of a method, or ""
 	recvType string
+	ptrRecv  bool     // pointer receiver (may update the state); a value receiver returns the state unchanged
 	state    []string // translated fields of the receiver, as "recv.field"
 	stypes   []ity
 	ignored  map[string]bool // receiver fields that are not translated (mutexes, channels)
@@ -95,6 +110,9 @@ func typeOfExpr(x ast.Expr) (ity, bool) {
 			if el, ok := typeOfExpr(v.Elt); ok && el == "ANY" {
 				return "SLICE_ANY", true
 			}
+			if el, ok := typeOfExpr(v.Elt); ok && el == "U8" {
+				return "SLICE_U8", true
+			}
 		}
 	}
 	return "", false
@@ -110,6 +128,8 @@ func coqType(ty ity) string {
 		return "option Z"
 	case "SLICE_ANY":
 		return "list (option Z)"
+	case "SLICE_U8":
+		return "list Z"
 	}
 	return "Z"
 }
@@ -120,7 +140,7 @@ func zeroOf(ty ity) string {
 		return "false"
 	case "ANY":
 		return "None"
-	case "SLICE_ANY":
+	case "SLICE_ANY", "SLICE_U8":
 		return "nil"
 	}
 	return "0"
@@ -168,6 +188,139 @@ func (t *tr) touchesIgnored(e ast.Expr) bool {
 	}
 }
 
+func isInt(ty ity) bool {
+	switch ty {
+	case "I64", "U64", "U32", "I32", "U8":
+		return true
+	}
+	return false
+}
+
+// noShadow: a call whose function name is also a local variable or parameter (a parameter named `id` next to the
+// function `id`, a variable named `len`) would be resolved wrongly by name: refuse it.
+func (t *tr) noShadow(c *ast.CallExpr, en env) {
+	if id, ok := c.Fun.(*ast.Ident); ok {
+		if _, local := en[id.Name]; local {
+			fail(t.pos(c), "call of %s, which is shadowed by a local variable", id.Name)
+		}
+	}
+}
+
+// methodCallee: for a call recv.m(...) on the current method's receiver, the translated method m of the same
+// type (an error if it is not in the translated set); nil if the call has a different shape. A field named like
+// a builtin (bf.len) is a selector, never a call of the builtin.
+func (t *tr) methodCallee(c *ast.CallExpr) *fn {
+	sel, ok := c.Fun.(*ast.SelectorExpr)
+	if !ok || t.cur == nil || t.cur.recv == "" {
+		return nil
+	}
+	id, ok := sel.X.(*ast.Ident)
+	if !ok || id.Name != t.cur.recv {
+		return nil
+	}
+	for _, st := range t.cur.state {
+		if st == t.cur.recv+"."+sel.Sel.Name {
+			fail(t.pos(c), "call of the field %s", st)
+		}
+	}
+	if t.cur.ignored[sel.Sel.Name] {
+		return nil
+	}
+	g, ok := t.fns[t.cur.recvType+"."+sel.Sel.Name]
+	if !ok {
+		fail(t.pos(c), "call of method %s.%s, which is not in the translated set", t.cur.recvType, sel.Sel.Name)
+	}
+	return g
+}
+
+// callTerm: evaluate the arguments left to right, then apply the translated function or method (a method gets the
+// caller's current state variables first). The term has the callee's full result type.
+func (t *tr) callTerm(c *ast.CallExpr, g *fn, en env) string {
+	if len(c.Args) != len(g.params) || c.Ellipsis.IsValid() {
+		fail(t.pos(c), "call of %s with %d arguments", g.decl.Name.Name, len(c.Args))
+	}
+	var sb strings.Builder
+	sb.WriteString("(")
+	var names []string
+	for i, a := range c.Args {
+		n := t.tmp()
+		names = append(names, n)
+		fmt.Fprintf(&sb, "%s <- %s ;; ", n, t.exprOf(a, en, g.ptypes[i]))
+	}
+	if g.recv != "" {
+		sb.WriteString(g.recvType + "_" + g.decl.Name.Name)
+	} else {
+		sb.WriteString(fname(g.decl.Name.Name))
+	}
+	if g.needFuel {
+		sb.WriteString(" fuel")
+	}
+	if g.recv != "" {
+		if t.cur.recvType != g.recvType || len(t.cur.state) != len(g.state) {
+			fail(t.pos(c), "method call across receiver types")
+		}
+		for _, st := range t.cur.state {
+			sb.WriteString(" " + cv(st))
+		}
+	}
+	for _, n := range names {
+		sb.WriteString(" " + n)
+	}
+	sb.WriteString(")")
+	return sb.String()
+}
+
+// methodValue: recv.m(args) inside an expression. Only a value-receiver method with exactly one result: the
+// state it returns is the state it was given, so it is dropped.
+func (t *tr) methodValue(c *ast.CallExpr, g *fn, en env) string {
+	if g.ptrRecv {
+		fail(t.pos(c), "call of the pointer-receiver method %s inside an expression", g.decl.Name.Name)
+	}
+	if len(g.rtypes) != 1 {
+		fail(t.pos(c), "call of method %s with %d results inside an expression", g.decl.Name.Name, len(g.rtypes))
+	}
+	var pat []string
+	for range g.state {
+		pat = append(pat, t.tmp())
+	}
+	r := t.tmp()
+	pat = append(pat, r)
+	return fmt.Sprintf("(%s <- %s ;; Val %s)", pattern(pat), t.callTerm(c, g, en), r)
+}
+
+// pattern is the binder for a result tuple: a name, or a destructuring pattern '(a, b, c)
+func pattern(names []string) string {
+	if len(names) == 1 {
+		return names[0]
+	}
+	return "'(" + strings.Join(names, ", ") + ")"
+}
+
+// writable: only a pointer-receiver method may change a receiver field or an element of a receiver slice.
+func (t *tr) writable(name string, n ast.Node) {
+	if strings.Contains(name, ".") && !t.cur.ptrRecv {
+		fail(t.pos(n), "assignment to %s in a value-receiver method", name)
+	}
+}
+
+// appendMakeIdiom matches append(S, make([]byte, N)...) and returns S and N.
+func appendMakeIdiom(c *ast.CallExpr) (ast.Expr, ast.Expr, bool) {
+	if id, ok := c.Fun.(*ast.Ident); !ok || id.Name != "append" || len(c.Args) != 2 || !c.Ellipsis.IsValid() {
+		return nil, nil, false
+	}
+	mk, ok := c.Args[1].(*ast.CallExpr)
+	if !ok || len(mk.Args) != 2 || mk.Ellipsis.IsValid() {
+		return nil, nil, false
+	}
+	if id, ok := mk.Fun.(*ast.Ident); !ok || id.Name != "make" {
+		return nil, nil, false
+	}
+	if ty, ok := typeOfExpr(mk.Args[0]); !ok || ty != "SLICE_U8" {
+		return nil, nil, false
+	}
+	return c.Args[0], mk.Args[1], true
+}
+
 // ---- types of expressions ----
 
 func (t *tr) typeOf(e ast.Expr, en env) ity {
@@ -196,10 +349,13 @@ func (t *tr) typeOf(e ast.Expr, en env) ity {
 		}
 		fail(t.pos(e), "selector that is not a translated receiver field")
 	case *ast.IndexExpr:
-		if t.typeOf(v.X, en) == "SLICE_ANY" {
+		switch t.typeOf(v.X, en) {
+		case "SLICE_ANY":
 			return "ANY"
+		case "SLICE_U8":
+			return "U8"
 		}
-		fail(t.pos(e), "index into something that is not a []any")
+		fail(t.pos(e), "index into something that is not a []any or []byte")
 	case *ast.ParenExpr:
 		return t.typeOf(v.X, en)
 	case *ast.UnaryExpr:
@@ -211,6 +367,16 @@ func (t *tr) typeOf(e ast.Expr, en env) ity {
 		switch v.Op {
 		case token.LSS, token.LEQ, token.GTR, token.GEQ, token.EQL, token.NEQ, token.LAND, token.LOR:
 			return "B"
+		case token.SHL:
+			// the type of a shift is the type of its left operand ("" = untyped constant: taken from the context)
+			if c := t.typeOf(v.Y, en); !isInt(c) && c != "" {
+				fail(t.pos(e), "shift count of type %s", c)
+			}
+			a := t.typeOf(v.X, en)
+			if !isInt(a) && a != "" {
+				fail(t.pos(e), "shift of a value of type %s", a)
+			}
+			return a
 		}
 		a, b := t.typeOf(v.X, en), t.typeOf(v.Y, en)
 		if a == "" {
@@ -221,6 +387,7 @@ func (t *tr) typeOf(e ast.Expr, en env) ity {
 		}
 		return a
 	case *ast.CallExpr:
+		t.noShadow(v, en)
 		if id, ok := v.Fun.(*ast.Ident); ok && id.Name == "len" && len(v.Args) == 1 {
 			return "I64"
 		}
@@ -231,6 +398,12 @@ func (t *tr) typeOf(e ast.Expr, en env) ity {
 			if f, ok := t.fns[id.Name]; ok {
 				return f.result
 			}
+		}
+		if g := t.methodCallee(v); g != nil {
+			if len(g.rtypes) != 1 {
+				fail(t.pos(e), "call of method %s with %d results inside an expression", g.decl.Name.Name, len(g.rtypes))
+			}
+			return g.rtypes[0]
 		}
 		fail(t.pos(e), "call of a function that is not translated")
 	}
@@ -305,6 +478,13 @@ func (t *tr) exprZ(e ast.Expr, en env, want ity) string {
 		return fmt.Sprintf("(Val %s)", cv(n))
 	case *ast.ParenExpr:
 		return t.exprZ(v.X, en, want)
+	case *ast.IndexExpr:
+		n, ok := t.lname(v.X)
+		if !ok || en[n] != "SLICE_U8" {
+			fail(t.pos(e), "index into something that is not a translated []byte")
+		}
+		i := t.tmp()
+		return fmt.Sprintf("(%s <- %s ;; go_index_z %s %s)", i, t.exprZ(v.Index, en, "I64"), cv(n), i)
 	case *ast.UnaryExpr:
 		if v.Op == token.SUB {
 			ty := t.typeOf(v.X, en)
@@ -329,8 +509,23 @@ func (t *tr) exprZ(e ast.Expr, en env, want ity) string {
 		if ty == "" {
 			ty = "I64"
 		}
+		if !isInt(ty) {
+			fail(t.pos(e), "binary operator %s at type %s", v.Op, ty)
+		}
+		if v.Op == token.SHL {
+			cty := t.typeOf(v.Y, en)
+			if cty == "" {
+				cty = "I64"
+			}
+			a, b := t.tmp(), t.tmp()
+			return fmt.Sprintf("(%s <- %s ;; %s <- %s ;; go_shl %s %s %s)", a, t.exprZ(v.X, en, ty), b, t.exprZ(v.Y, en, cty), ty, a, b)
+		}
 		var op string
 		switch v.Op {
+		case token.AND:
+			op = "go_and"
+		case token.OR:
+			op = "go_or"
 		case token.ADD:
 			op = "go_add"
 		case token.SUB:
@@ -347,12 +542,19 @@ func (t *tr) exprZ(e ast.Expr, en env, want ity) string {
 		a, b := t.tmp(), t.tmp()
 		return fmt.Sprintf("(%s <- %s ;; %s <- %s ;; %s %s %s %s)", a, t.exprZ(v.X, en, ty), b, t.exprZ(v.Y, en, ty), op, ty, a, b)
 	case *ast.CallExpr:
+		t.noShadow(v, en)
 		if id, ok := v.Fun.(*ast.Ident); ok && id.Name == "len" && len(v.Args) == 1 {
 			n, ok := t.lname(v.Args[0])
-			if !ok || en[n] != "SLICE_ANY" {
-				fail(t.pos(e), "len of something that is not a translated []any")
+			if !ok || (en[n] != "SLICE_ANY" && en[n] != "SLICE_U8") {
+				fail(t.pos(e), "len of something that is not a translated slice")
 			}
 			return fmt.Sprintf("(go_len %s)", cv(n))
+		}
+		if g := t.methodCallee(v); g != nil {
+			if len(g.rtypes) != 1 || !isInt(g.rtypes[0]) {
+				fail(t.pos(e), "method call that does not yield one integer")
+			}
+			return t.methodValue(v, g, en)
 		}
 		if inner, ok := ceilHalfIdiom(v); ok {
 			if ty := t.typeOf(inner, en); ty != "I64" && ty != "" {
@@ -374,26 +576,7 @@ func (t *tr) exprZ(e ast.Expr, en env, want ity) string {
 				if len(f.multi) > 0 {
 					fail(t.pos(e), "call of the tuple-valued function %s inside an expression", id.Name)
 				}
-				if len(v.Args) != len(f.params) {
-					fail(t.pos(e), "call of %s with %d arguments", id.Name, len(v.Args))
-				}
-				var sb strings.Builder
-				sb.WriteString("(")
-				var names []string
-				for i, a := range v.Args {
-					n := t.tmp()
-					names = append(names, n)
-					fmt.Fprintf(&sb, "%s <- %s ;; ", n, t.exprZ(a, en, f.ptypes[i]))
-				}
-				sb.WriteString(fname(id.Name))
-				if f.needFuel {
-					sb.WriteString(" fuel")
-				}
-				for _, n := range names {
-					sb.WriteString(" " + n)
-				}
-				sb.WriteString(")")
-				return sb.String()
+				return t.callTerm(v, f, en)
 			}
 		}
 		fail(t.pos(e), "call of a function that is not translated")
@@ -436,8 +619,37 @@ func (t *tr) exprOf(e ast.Expr, en env, ty ity) string {
 		return t.exprA(e, en)
 	case "SLICE_ANY":
 		fail(t.pos(e), "slice-valued expression")
+	case "SLICE_U8":
+		return t.exprS(e, en)
 	}
 	return t.exprZ(e, en, ty)
+}
+
+// exprS translates an expression of type []byte: a variable or translated field, or append(s, make([]byte, n)...)
+func (t *tr) exprS(e ast.Expr, en env) string {
+	switch v := e.(type) {
+	case *ast.ParenExpr:
+		return t.exprS(v.X, en)
+	case *ast.Ident, *ast.SelectorExpr:
+		if n, ok := t.lname(e); ok && en[n] == "SLICE_U8" {
+			return fmt.Sprintf("(Val %s)", cv(n))
+		}
+	case *ast.CallExpr:
+		t.noShadow(v, en)
+		if s, n, ok := appendMakeIdiom(v); ok {
+			sn, ok := t.lname(s)
+			if !ok || en[sn] != "SLICE_U8" {
+				fail(t.pos(e), "append to something that is not a translated []byte")
+			}
+			if _, shadow := en["make"]; shadow {
+				fail(t.pos(e), "make is shadowed by a local variable")
+			}
+			a := t.tmp()
+			return fmt.Sprintf("(%s <- %s ;; go_extend %s %s)", a, t.exprZ(n, en, "I64"), cv(sn), a)
+		}
+	}
+	fail(t.pos(e), "expression of type []byte: %T", e)
+	return ""
 }
 
 func (t *tr) exprB(e ast.Expr, en env) string {
@@ -450,6 +662,14 @@ func (t *tr) exprB(e ast.Expr, en env) string {
 		}
 		if en[v.Name] == "B" {
 			return fmt.Sprintf("(Val %s)", cv(v.Name))
+		}
+	case *ast.CallExpr:
+		t.noShadow(v, en)
+		if g := t.methodCallee(v); g != nil {
+			if len(g.rtypes) != 1 || g.rtypes[0] != "B" {
+				fail(t.pos(e), "method call that does not yield one bool")
+			}
+			return t.methodValue(v, g, en)
 		}
 	case *ast.UnaryExpr:
 		if v.Op == token.NOT {
@@ -546,14 +766,85 @@ func (t *tr) stmts(list []ast.Stmt, en env, depth int, k func(env) string) strin
 	}
 	switch v := s.(type) {
 	case *ast.AssignStmt:
+		if len(v.Lhs) > 1 && len(v.Rhs) == 1 && (v.Tok == token.DEFINE || v.Tok == token.ASSIGN) {
+			// a, b := f(x) / a, b = f(x) with f a translated tuple-valued function
+			c, ok := v.Rhs[0].(*ast.CallExpr)
+			if !ok {
+				fail(t.pos(s), "multiple assignment from something that is not a call")
+			}
+			t.noShadow(c, en)
+			id, ok := c.Fun.(*ast.Ident)
+			if !ok {
+				fail(t.pos(s), "multiple assignment from something that is not a translated function")
+			}
+			f, ok := t.fns[id.Name]
+			if !ok || f.recv != "" || len(f.multi) != len(v.Lhs) {
+				fail(t.pos(s), "multiple assignment from %s, which is not a translated function with %d results", id.Name, len(v.Lhs))
+			}
+			en3 := en.copy()
+			var pat []string
+			seen := map[string]bool{}
+			for i, l := range v.Lhs {
+				lid, ok := l.(*ast.Ident)
+				if !ok {
+					fail(t.pos(s), "multiple assignment to a non-variable")
+				}
+				if lid.Name == "_" {
+					pat = append(pat, t.tmp())
+					continue
+				}
+				if seen[lid.Name] {
+					fail(t.pos(s), "multiple assignment naming %s twice", lid.Name)
+				}
+				seen[lid.Name] = true
+				old, exists := en[lid.Name]
+				if v.Tok == token.DEFINE {
+					if exists && depth > 0 {
+						fail(t.pos(s), "redeclaration of %s in a nested block", lid.Name)
+					}
+					if exists && old != f.mtypes[i] {
+						fail(t.pos(s), "redeclaration of %s at another type", lid.Name)
+					}
+				} else if !exists || old != f.mtypes[i] {
+					fail(t.pos(s), "assignment to %s, which is not a variable of the result's type", lid.Name)
+				}
+				en3[lid.Name] = f.mtypes[i]
+				pat = append(pat, cv(lid.Name))
+			}
+			return fmt.Sprintf("(%s <- %s ;;\n %s)", pattern(pat), t.callTerm(c, f, en), next(en3))
+		}
 		if len(v.Lhs) != 1 || len(v.Rhs) != 1 {
 			fail(t.pos(s), "multiple assignment")
+		}
+		if ix, ok := v.Lhs[0].(*ast.IndexExpr); ok {
+			if n, ok := t.lname(ix.X); ok && en[n] == "SLICE_U8" {
+				// s[i] = x and s[i] op= x on a []byte: index, right-hand side, (read,) write
+				t.writable(n, s)
+				i, x := t.tmp(), t.tmp()
+				var rhs string
+				if v.Tok == token.ASSIGN {
+					rhs = fmt.Sprintf("(%s <- %s ;; %s <- %s ;; go_set_index %s %s %s)", i, t.exprZ(ix.Index, en, "I64"), x, t.exprZ(v.Rhs[0], en, "U8"), cv(n), i, x)
+				} else {
+					op, ok := map[token.Token]string{token.OR_ASSIGN: "go_or", token.AND_ASSIGN: "go_and", token.ADD_ASSIGN: "go_add", token.SUB_ASSIGN: "go_sub", token.MUL_ASSIGN: "go_mul"}[v.Tok]
+					if !ok {
+						fail(t.pos(s), "assignment operator %s on a slice element", v.Tok)
+					}
+					if rt := t.typeOf(v.Rhs[0], en); rt != "" && rt != "U8" {
+						fail(t.pos(s), "operands of different types U8 and %s", rt)
+					}
+					o, y := t.tmp(), t.tmp()
+					rhs = fmt.Sprintf("(%s <- %s ;; %s <- %s ;; %s <- go_index_z %s %s ;; %s <- %s U8 %s %s ;; go_set_index %s %s %s)",
+						i, t.exprZ(ix.Index, en, "I64"), x, t.exprZ(v.Rhs[0], en, "U8"), o, cv(n), i, y, op, o, x, cv(n), i, y)
+				}
+				return assign(n, "SLICE_U8", rhs, en)
+			}
 		}
 		if ix, ok := v.Lhs[0].(*ast.IndexExpr); ok && v.Tok == token.ASSIGN {
 			n, ok := t.lname(ix.X)
 			if !ok || en[n] != "SLICE_ANY" {
 				fail(t.pos(s), "assignment to a slot of something that is not a translated []any")
 			}
+			t.writable(n, s)
 			i, x := t.tmp(), t.tmp()
 			rhs := fmt.Sprintf("(%s <- %s ;; %s <- %s ;; go_set_index %s %s %s)", i, t.exprZ(ix.Index, en, "I64"), x, t.exprA(v.Rhs[0], en), cv(n), i, x)
 			return assign(n, "SLICE_ANY", rhs, en)
@@ -563,6 +854,9 @@ func (t *tr) stmts(list []ast.Stmt, en env, depth int, k func(env) string) strin
 			fail(t.pos(s), "assignment to a non-variable")
 		}
 		id := &ast.Ident{Name: name, NamePos: v.Lhs[0].Pos()}
+		if v.Tok != token.DEFINE {
+			t.writable(name, s)
+		}
 		switch v.Tok {
 		case token.DEFINE:
 			if _, exists := en[id.Name]; exists && depth > 0 {
@@ -600,6 +894,7 @@ func (t *tr) stmts(list []ast.Stmt, en env, depth int, k func(env) string) strin
 		if !ok {
 			fail(t.pos(s), "%s is not a translated variable or field", name)
 		}
+		t.writable(name, s)
 		op := token.ADD
 		if v.Tok == token.DEC {
 			op = token.SUB
@@ -610,6 +905,30 @@ func (t *tr) stmts(list []ast.Stmt, en env, depth int, k func(env) string) strin
 		// calls on receiver fields that are not translated (q.mut.Lock()) have no effect on the translated state
 		if c, ok := v.X.(*ast.CallExpr); ok && t.touchesIgnored(c) {
 			return next(en)
+		}
+		if c, ok := v.X.(*ast.CallExpr); ok {
+			if g := t.methodCallee(c); g != nil {
+				// recv.m(args) as a statement: results are dropped; the state returned by a pointer-receiver callee
+				// replaces the caller's state variables (a value-receiver callee cannot have changed it)
+				if g.ptrRecv && !t.cur.ptrRecv {
+					fail(t.pos(s), "call of the pointer-receiver method %s in a value-receiver method", g.decl.Name.Name)
+				}
+				var pat []string
+				for _, st := range t.cur.state {
+					if g.ptrRecv {
+						pat = append(pat, cv(st))
+					} else {
+						pat = append(pat, t.tmp())
+					}
+				}
+				for range g.rtypes {
+					pat = append(pat, t.tmp())
+				}
+				if len(pat) == 0 {
+					fail(t.pos(s), "call of a method without state or results")
+				}
+				return fmt.Sprintf("(%s <- %s ;;\n %s)", pattern(pat), t.callTerm(c, g, en), next(en))
+			}
 		}
 		fail(t.pos(s), "expression statement")
 	case *ast.DeferStmt:
@@ -663,7 +982,7 @@ func (t *tr) stmts(list []ast.Stmt, en env, depth int, k func(env) string) strin
 			}
 			rhs = t.exprZ(vs.Values[0], en, ty)
 		}
-		if ty == "" || ty == "B" {
+		if !isInt(ty) {
 			fail(t.pos(s), "variable without an integer type")
 		}
 		return assign(name, ty, rhs, en)
@@ -731,13 +1050,32 @@ func (t *tr) stmts(list []ast.Stmt, en env, depth int, k func(env) string) strin
 			if v.Post != nil {
 				body = append(body, v.Post)
 			}
-			ast.Inspect(v.Body, func(n ast.Node) bool {
-				switch n.(type) {
+			guard := func(n ast.Node) bool {
+				switch w := n.(type) {
 				case *ast.ReturnStmt, *ast.BranchStmt:
 					fail(t.pos(n), "return, break or continue inside a loop")
+				case *ast.ExprStmt:
+					if c, ok := w.X.(*ast.CallExpr); ok && !t.touchesIgnored(c) && t.methodCallee(c) != nil {
+						fail(t.pos(n), "method call statement inside a loop")
+					}
+				case *ast.AssignStmt:
+					// the loop-carried tuple holds local integer variables only
+					for _, l := range w.Lhs {
+						if _, ok := l.(*ast.Ident); !ok {
+							fail(t.pos(n), "assignment to a field or slice element inside a loop")
+						}
+					}
+				case *ast.IncDecStmt:
+					if _, ok := w.X.(*ast.Ident); !ok {
+						fail(t.pos(n), "++/-- on a field or slice element inside a loop")
+					}
 				}
 				return true
-			})
+			}
+			ast.Inspect(v.Body, guard)
+			if v.Post != nil {
+				ast.Inspect(v.Post, guard)
+			}
 			mod := map[string]bool{}
 			assigned(body, mod, map[string]bool{})
 			var ms []string
@@ -958,7 +1296,7 @@ func main() {
 				f := &fn{decl: found, file: parts[0], src: src.String()}
 				for _, fld := range found.Type.Params.List {
 					ty, ok := typeOfExpr(fld.Type)
-					if !ok || ty == "SLICE_ANY" {
+					if !ok || ty == "SLICE_ANY" || ty == "SLICE_U8" {
 						fail(t.pos(fld), "parameter of an untranslated type")
 					}
 					if recvType == "" && (ty == "B" || ty == "ANY") {
@@ -978,6 +1316,7 @@ func main() {
 						fail(t.pos(found), "method with an unnamed receiver")
 					}
 					f.recv, f.recvType, f.ignored = found.Recv.List[0].Names[0].Name, recvType, map[string]bool{}
+					_, f.ptrRecv = found.Recv.List[0].Type.(*ast.StarExpr)
 					var sd *ast.StructType
 					for _, d := range file.Decls {
 						if gd, ok := d.(*ast.GenDecl); ok && gd.Tok == token.TYPE {
@@ -1024,7 +1363,7 @@ func main() {
 					}
 					rf := found.Type.Results.List[0]
 					ty, ok := typeOfExpr(rf.Type)
-					if !ok || ty == "B" || ty == "ANY" || ty == "SLICE_ANY" {
+					if !ok || !isInt(ty) {
 						fail(t.pos(rf), "result of a non-integer type")
 					}
 					f.result = ty
@@ -1045,6 +1384,11 @@ func main() {
 					case *ast.CallExpr:
 						if id, ok := v.Fun.(*ast.Ident); ok {
 							f.calls = append(f.calls, id.Name)
+						}
+						if sel, ok := v.Fun.(*ast.SelectorExpr); ok && f.recv != "" {
+							if id, ok := sel.X.(*ast.Ident); ok && id.Name == f.recv {
+								f.calls = append(f.calls, f.recvType+"."+sel.Sel.Name)
+							}
 						}
 					}
 					return true
